@@ -8,6 +8,7 @@ from ..astutil import (src, flat_guards, flatten_guard, calls_in, call_name, kwa
                        iter_own_nodes, ancestors, is_within)
 from ..cfg import cfg_of, Prov
 from .. import variants as V
+from .. import kernel
 
 PROPERTY = "C05"
 TITLE = "Generated programs are closed and respect scoping and mutability rules"
@@ -575,6 +576,18 @@ def r9_local_declarations(repo):
     return obs
 
 
+def r10_fold(repo):
+    """the generator decides with has_type_variables() whether a type may leave the scope of the enclosing type parameters"""
+    return kernel.has_type_variables_fold(repo, "C05-R10")
+
+
+def r11_inherited_signatures(repo):
+    """an inherited signature talks about the superclass's type variables; they are out of scope in the subclass unless
+    every member that comes up the chain is substituted with the arguments the subclass gives its superclass"""
+    from .c01 import r9_inherited_members
+    return r9_inherited_members(repo, rid="C05-R11")
+
+
 def rules():
     return [
         RuleSpec("C05-R1", "only non-final variables / fields are assignment targets", 6, r1_non_final_targets),
@@ -586,6 +599,8 @@ def rules():
         RuleSpec("C05-R7", "reserved words of the four target languages vs. the resource files", 5, r7_reserved_data),
         RuleSpec("C05-R9", "a body declares every registered local, first and in registration order", 3, r9_local_declarations),
         RuleSpec("C05-R8", "generated callees stay in the scope of their type variables; removed type parameters are substituted away", 4, r8_type_variables_in_scope),
+        RuleSpec("C05-R10", "has_type_variables is the structural fold (types with free variables are kept inside their scope)", 7, r10_fold),
+        RuleSpec("C05-R11", "inherited members are substituted copies (superclass type variables do not leak)", 9, r11_inherited_signatures),
     ]
 
 
